@@ -46,7 +46,7 @@ Proof. exact told_refuses. Qed.
 Definition ex_defs : defs :=
   [(0%nat, PDef 1 None false 0 false 0 0 0 [(0%nat, TaskDef [] false false 0 0); (1%nat, TaskDef [0%nat] false false 0 0)])].
 Example C04_ex_gap :
-  let s := exec (init ex_defs) [EvSchedule 0 VNone 0; EvIterBegin 0; EvVisit 0 0; EvVisit 0 1; EvRunBegin 0 0; EvRunEnd 0 0 OutOk;
+  let s := exec (init ex_defs) [EvSchedule 0 VNone 0; EvIterBegin 0; EvVisit 0 0; EvVisit 0 1; EvRunBegin 0 0; EvRunEnd 0 0 OutOk; EvNotify 0 0;
                                 EvCancel 0; EvCancelDeliver 0; EvIterBegin 0; EvSchedReturn 0] in
   (fun j => (j_completed j, j_canceled j, j_lasterr j)) <$> get_job s 0 = Some (true, true, None).
 Proof. vm_compute. done. Qed.
